@@ -38,7 +38,9 @@ def kindIri : MapType → Str
   | .constant => RML_CONSTANT
   | .template => RML_TEMPLATE
   | .reference => RML_REFERENCE
-  | _ => []
+  | .execution => RML_EXECUTION
+  | .quoted => Gen.Core.RML_QUOTED_TRIPLES_MAP
+  | .parentTM => "http://w3id.org/rml/parentTriplesMap".toList
 
 def ttIri : Option TermType → Str
   | some .iri => RML_IRI
@@ -54,6 +56,10 @@ def primsOf (cfg : TermCfg) (fmt : Str) : Gen.Core.Prims where
   outputFormat := fmt
   /- function executions are outside the fragment of `Model.rowTriple` (C14's domain) -/
   fnml := fun _ _ _ _ _ => .error (.keyError [])
+  fnmlRefs := fun _ => []
+  quotedRefs := fun _ => []
+  joinChildRefs := fun _ => []
+  joinParentRefs := fun _ => []
 
 def canonD (dt v : Str) : Str := match canonFor Gen.canonSiteTemplate.ladder dt v with | .ok r => r | .error _ => v
 
@@ -385,5 +391,98 @@ example :
                   langDatatypeMapValue := "en".toList } .reference "n".toList) [] 0
       = .ok "<http://e/a%20b> <http://e/p> \"x\\\"y\"@en <http://g/a%20b>".toList := by
   decide +kernel
+
+/-! ## `_get_references_in_rml_rule` -/
+
+theorem kind_exec (k : MapType) : (kindIri k = RML_EXECUTION) ↔ k = .execution := by cases k <;> decide
+theorem kind_quoted (k : MapType) : (kindIri k = Gen.Core.RML_QUOTED_TRIPLES_MAP) ↔ k = .quoted := by cases k <;> decide
+
+/-- what one position contributes: the if-ladder of the source is `Model.refsOfMap` (function executions are C14's domain) -/
+theorem refs_fragment (k : MapType) (hk : k ≠ .execution) (v : Str) (acc : List Str) (f : Str → List Str) :
+    (if kindIri k = RML_TEMPLATE then acc ++ Gen.Core.get_references_in_template v
+     else if kindIri k = RML_REFERENCE then acc ++ [v]
+     else if kindIri k = RML_EXECUTION then acc ++ f v else acc) = acc ++ refsOfMap k v := by
+  simp only [kind_tpl, kind_ref, kind_exec, refs_eq]
+  cases k <;> simp_all [refsOfMap]
+
+/-- the join-condition parameters of the translated code for a model rule -/
+def joinPrims (r : Rule) (base : Gen.Core.Prims) : Gen.Core.Prims :=
+  { base with
+    joinChildRefs := fun k => if k = "subject_join_conditions".toList then r.subjectJoin.map (·.1)
+                              else if k = "object_join_conditions".toList then r.objectJoin.map (·.1) else [],
+    joinParentRefs := fun k => if k = "subject_join_conditions".toList then r.subjectJoin.map (·.2)
+                               else if k = "object_join_conditions".toList then r.objectJoin.map (·.2) else [] }
+
+/-- rules without function-valued and quoted term maps (the fragment of `Model.refsOfRule`) -/
+structure NoFnQuoted (r : Rule) : Prop where
+  s : r.subjectMapType ≠ .execution ∧ r.subjectMapType ≠ .quoted
+  p : r.predicateMapType ≠ .execution
+  o : r.objectMapType ≠ .execution ∧ r.objectMapType ≠ .quoted
+  g : r.graphMapType ≠ .execution
+  l : r.langDatatypeMapType ≠ some .execution
+
+/-- what the if-ladder of one position appends -/
+def ladderRefs (kI v : Str) (f : Str → List Str) : List Str :=
+  if kI = RML_TEMPLATE then Gen.Core.get_references_in_template v else if kI = RML_REFERENCE then [v]
+  else if kI = RML_EXECUTION then f v else []
+
+theorem ladder (kI v : Str) (f : Str → List Str) (acc : List Str) :
+    (if kI = RML_TEMPLATE then acc ++ Gen.Core.get_references_in_template v else if kI = RML_REFERENCE then acc ++ [v]
+     else if kI = RML_EXECUTION then acc ++ f v else acc) = acc ++ ladderRefs kI v f := by
+  unfold ladderRefs
+  split
+  · rfl
+  · split
+    · rfl
+    · split
+      · rfl
+      · simp
+
+theorem ladderRefs_kind (k : MapType) (hk : k ≠ .execution) (v : Str) (f : Str → List Str) :
+    ladderRefs (kindIri k) v f = refsOfMap k v := by
+  have := refs_fragment k hk v [] f
+  simpa [ladderRefs] using this
+
+theorem ladderRefs_nil (v : Str) (f : Str → List Str) : ladderRefs [] v f = [] := by
+  have n1 : ([] : Str) ≠ RML_TEMPLATE := by decide
+  have n2 : ([] : Str) ≠ RML_REFERENCE := by decide
+  have n3 : ([] : Str) ≠ RML_EXECUTION := by decide
+  simp only [ladderRefs, n1, n2, n3, if_false]
+
+/-- **`_get_references_in_rml_rule(rule, …)` as translated from the source = `Model.refsOfRule r`**: the columns a rule is read with
+    and NULL-filtered on (C06), in the order subject, predicate, object, graph, language / datatype map, child join columns -/
+theorem refs_of_rule_eq (r : Rule) (h : NoFnQuoted r) (base : Gen.Core.Prims) :
+    Gen.Core.get_references_in_rml_rule_all (joinPrims r base) (pyRuleOf r r.objectMapType r.objectMapValue) = refsOfRule r false := by
+  obtain ⟨⟨hs, hsq⟩, hp, ⟨ho, hoq⟩, hg, hl⟩ := h
+  have hqs : ¬ (kindIri r.subjectMapType = Gen.Core.RML_QUOTED_TRIPLES_MAP) := fun e => hsq ((kind_quoted _).mp e)
+  have hqo : ¬ (kindIri r.objectMapType = Gen.Core.RML_QUOTED_TRIPLES_MAP) := fun e => hoq ((kind_quoted _).mp e)
+  have hj1 : (joinPrims r base).joinChildRefs "subject_join_conditions".toList = r.subjectJoin.map (·.1) := by
+    simp only [joinPrims, if_true]
+  have hj2 : (joinPrims r base).joinChildRefs "object_join_conditions".toList = r.objectJoin.map (·.1) := by
+    have : "object_join_conditions".toList ≠ "subject_join_conditions".toList := by decide
+    simp only [joinPrims, if_true, this, if_false]
+  unfold Gen.Core.get_references_in_rml_rule_all pyRuleOf refsOfRule
+  simp only []
+  simp only [ladder, hqs, hqo, false_and, if_false, hj1, hj2]
+  rw [ladderRefs_kind _ hs, ladderRefs_kind _ hp, ladderRefs_kind _ ho, ladderRefs_kind _ hg]
+  cases hm : r.langDatatypeMapType with
+  | none => simp only [ladderRefs_nil, List.nil_append, List.append_nil, List.append_assoc, Bool.false_eq_true, if_false]
+  | some mt =>
+    have hmt : mt ≠ .execution := fun e => hl (by rw [hm, e])
+    simp only [ladderRefs_kind mt hmt, List.nil_append, List.append_assoc, Bool.false_eq_true, if_false]
+
+
+/-- with `only_subject_map=True` (the parent side of a referencing object map): the references of the subject map only -/
+theorem refs_of_rule_subject_eq (r : Rule) (hs : r.subjectMapType ≠ .execution) (hq : r.subjectMapType ≠ .quoted) (hj : r.subjectJoin = [])
+    (base : Gen.Core.Prims) :
+    Gen.Core.get_references_in_rml_rule_subject (joinPrims r base) (pyRuleOf r r.objectMapType r.objectMapValue) = refsOfRule r true := by
+  have hqs : ¬ (kindIri r.subjectMapType = Gen.Core.RML_QUOTED_TRIPLES_MAP) := fun e => hq ((kind_quoted _).mp e)
+  have hj1 : (joinPrims r base).joinChildRefs "subject_join_conditions".toList = [] := by
+    simp only [joinPrims, if_true, hj, List.map_nil]
+  unfold Gen.Core.get_references_in_rml_rule_subject pyRuleOf refsOfRule
+  simp only []
+  simp only [ladder, hqs, false_and, if_false, hj1]
+  rw [ladderRefs_kind _ hs]
+  simp only [List.nil_append, List.append_nil, if_true]
 
 end Props.CoreFuncs
